@@ -276,6 +276,9 @@ func checkC03(p *Program, r *Report) {
 	checkFreshFor(p, r, "C03.fresh", getID, "GetID", 1)
 	// ---- keys are bytes (shared with C10): exactness for arbitrary query strings includes bytes >= 0x80
 	checkNoRuneWalk(p, r, "C03.bytes-not-runes", p.Method(p.Trie, "SlimTrie", "Get"), getID, p.Method(p.Trie, "SlimTrie", "RangeGet"), p.Method(p.Trie, "SlimTrie", "Search"), p.Trie.Func("NewSlimTrie"))
+	r.Explanation += " (align) wherever the position at which the builder cuts labels (bmtree.PathsOf/PathOf) is aligned by a constant mask, the mask clears at least log2(w) low bits for every label word size w that can reach the same call together with it (leaves of position and word size paired per phi edge and helper return): a 257-bit node is cut at whole bytes, as the readers address it."
+	checkCutAlignment(p, r, "C03.align")
+	checkCodecsAs(p, r, "C03")
 }
 
 // dependsOnSessionField: v is computed (within a few steps) from a load of the given session field.
